@@ -1,4 +1,5 @@
 import AlgopyVerif.Proofs.Analytic
+import AlgopyVerif.Proofs.Lift
 /-!
 # C01 — elementary functions return the Taylor coefficients of `f(x(t))`
 
@@ -86,6 +87,35 @@ theorem sincos_formal (s0 c0 : K) (x : List K) (d : ℕ) (h : d + 1 < x.length) 
 theorem reciprocal_formal (y : List K) (hy : co y 0 ≠ 0) (d : ℕ) (h : d < y.length) :
     ∑ k ∈ Finset.range (d+1), co (recipS y) k * co y (d-k) = if d = 0 then 1 else 0 :=
   recipS_mul y hy d h
+end
+
+/-! ## any number of directions `P`, any coefficient shape -/
+section
+open NdArray
+attribute [local instance] inh0
+
+/-- a UTPM method = the L0 kernel applied to every `(p, idx)` series (model of `clone()` + kernel) -/
+theorem utpm_elementwise {K : Type} [Field K] (f : List K → List K → List K) (leaves : List (NdArray K))
+    (x : NdArray K) (D P : Nat) (s : List Nat) (hx : x.shape = D :: P :: s) (p : Nat) (idx : List Nat)
+    (hp : p < P) (h : ValidIdx s idx) (d : Nat) (hd : d < D) :
+    co (seriesAt (mapS1 f leaves x) p idx) d
+      = co (f (leaves.map fun l => l.get (p :: idx)) (seriesAt x p idx)) d := by
+  rw [seriesAt_mapS1 f leaves x D P s hx p idx hp h, co_map_range _ _ _ hd]
+
+theorem seriesAt_length {K : Type} [Field K] (x : NdArray K) (D P : Nat) (s : List Nat)
+    (hx : x.shape = D :: P :: s) (p : Nat) (idx : List Nat) : (seriesAt x p idx).length = D := by
+  simp [seriesAt, utD, hx]
+
+/-- `UTPM.exp` for every direction `p`, element `idx` and order `d`, with the leaf array
+`numpy.exp(x.data[0])` -/
+theorem utpm_exp_taylor (x leaf : NdArray ℝ) (D P : Nat) (s : List Nat) (hx : x.shape = D :: P :: s)
+    (p : Nat) (idx : List Nat) (hp : p < P) (h : ValidIdx s idx) (d : Nat) (hd : d < D)
+    (hleaf : leaf.get (p :: idx) = Real.exp (co (seriesAt x p idx) 0)) :
+    co (seriesAt (mapS1 (fun lv xs => expS (lv.getD 0 0) xs) [leaf] x) p idx) d
+      = tc (fun t => Real.exp (curve (seriesAt x p idx) t)) d := by
+  rw [utpm_elementwise _ _ x D P s hx p idx hp h d hd]
+  simp only [List.map_cons, List.map_nil, List.getD_cons_zero, hleaf]
+  exact AV.exp_taylor _ d (by rw [seriesAt_length x D P s hx]; exact hd)
 end
 
 /-! ## non-vacuity -/
